@@ -69,7 +69,7 @@ fn main() {
         "C01" => props::c01::run(tier, seed, only.and_then(|s| s.parse().ok())),
         "C02" => props::c02::run(tier, seed, only.and_then(|s| s.parse().ok())),
         "C03" => props::c03::run(tier, seed, only),
-        "C08" => props::c08::run(tier, seed, only.and_then(|s| s.parse().ok())),
+        "C08" => props::c08::run(tier, seed, only),
         "C09" => props::c09::run(tier, seed, only),
         "C10" => props::c10::run(tier, seed, only),
         "C11" => props::c11::run(tier, seed, only.and_then(|s| s.parse().ok())),
